@@ -15,7 +15,7 @@ EXPLANATION = (
     "assignment that installs the reversed graph is control-dependent on specs.directed == true; by reaching definitions, the "
     "un-reversed initial definition reaches a kernel call (or the closure that captures it) only along the specs.directed == false "
     "edge; the node-name lookup for the result uses the same graph value as the kernel.  R-C06-2: the result depends on `weighted` "
-    "and `wf_improved` and on the kernels.  NOT decided: the formula's values, the Wasserman-Faust scaling arithmetic, 0 for "
+    "and `wf_improved` and on the kernels.  R-C06-6: the scaling switch handed to the per-node formula is the caller's `wf_improved` at every call site.  NOT decided: the formula's values, the Wasserman-Faust scaling arithmetic, 0 for "
     "unreachable nodes -- numerical facts outside static reach."
 )
 TRUSTED = ["rustc MIR construction", "Graph::reverse returns the reversed graph (C15)"]
@@ -142,6 +142,7 @@ def run(ctx):
     ctx.floor("R-C06-1", "name_lookups", n_names, 1)
 
     rule3(ctx, prog, flows, root, kcalls)
+    rule6(ctx, prog, flows, root)
     # R-C06-4: the value is (r-1)/sum, times (r-1)/(n-1): a quotient of counts and distances.  Nothing in the
     # definition limits or rounds it -- with weights below 1 it exceeds 1
     ctx.rule("R-C06-4", "the closeness formula applies no limiting or rounding operation (min / max / clamp / round ..) to the quotient")
@@ -224,3 +225,30 @@ def rule3(ctx, prog, flows, root, kcalls):
         if not found:
             ctx.violation("R-C06-3", "dispatch|%s|%s" % (b.short.split("::", 3)[-1], kname), "the call of %s is not controlled by a test of `weighted`" % kname, loc_str(t.span))
     ctx.floor("R-C06-3", "kernel_dispatch_tests", n, 2)
+
+
+def rule6(ctx, prog, flows, root):
+    """the Wasserman-Faust scaling is applied exactly when the caller asks for it: the flag handed to the per-node
+    formula is the caller's `wf_improved`, at every call site (the sequential and the parallel arm alike)"""
+    ctx.rule("R-C06-6", "every call of the per-node closeness formula receives the caller's `wf_improved` flag itself as its scaling switch")
+    gnc = prog.find("closeness::get_node_centrality")
+    if not gnc:
+        ctx.undecided("R-C06-6", "formula-calls", "the per-node formula is no longer a function of its own; which flag scales the value is covered by R-C06-2 only")
+        return
+    n = 0
+    for cb in [root] + list(prog.closures_of(root.path)):
+        for t in cb.calls():
+            if not t.callee or t.callee.target_path(prog) != gnc[0].path:
+                continue
+            for a in t.args:
+                ty = a.place.ty if a.place is not None else ((a.c or {}).get("ty"))
+                if ty != "bool":
+                    continue
+                n += 1
+                if a.place is None:
+                    ctx.violation("R-C06-6", "flag|%s|%d" % (cb.short.split("::", 3)[-1], n), "the per-node formula is called with a constant scaling switch in %s: `wf_improved` has no effect on this arm" % cb.short, loc_str(t.span))
+                    continue
+                params, callees = value_descriptor(flows, root.path, cb.path, a)
+                ctx.require(params == {"wf_improved"} and not callees, "R-C06-6", "flag|%s|%d" % (cb.short.split("::", 3)[-1], n), "the scaling switch in %s is `wf_improved`" % cb.short.split("::")[-1],
+                            "the scaling switch handed to the per-node formula in %s derives from %s, not from `wf_improved` alone: the Wasserman-Faust factor is applied (or skipped) against the caller's request" % (cb.short, sorted(params) + sorted(c.split("::")[-1] for c in callees)), loc_str(t.span))
+    ctx.floor("R-C06-6", "formula_calls", n, 2)
